@@ -26,8 +26,13 @@ MC_StrLits  == {"p", "q r"}
 MC_StrLits_T == {"p", "q r", "", "SELECT * from"}
 MC_TrickyStrs   == {"true", "False", "desc", "and", "left", "null", "=", ",", "(", ";", "*", ".", "!=", "7", "", "a --b", "/* x"}
 MC_TrickyStrs_S == {"true", "="}
-MC_QuotedIdents   == {"select", "Desc", "true", "a b"}
+MC_QuotedIdents   == {"select", "Desc", "true", "a b", "q <U+1F600>"}
 MC_QuotedIdents_S == {"select"}
+\* <U+00E9> e acute (2 bytes), <U+6771> <U+4EAC> CJK (3 bytes each), <U+1F600> an emoji (4 bytes)
+MC_UniStrs    == {"caf<U+00E9>", "<U+6771><U+4EAC> x", "a<U+1F600>b", "<U+00E9><U+6771><U+1F600>"}
+MC_UniStrs_S  == {"<U+00E9><U+6771><U+1F600>"}
+MC_UniIdents  == {"t<U+00E9>", "<U+6771>1", "q <U+1F600>"}     \* the last one is written in double quotes
+MC_UniIdents_S == {"t<U+00E9>"}
 MC_VarcharLens == {1, 255}
 MC_LimVals  == {0, 7}
 MC_LimVals_S == {7}
@@ -94,6 +99,12 @@ CoverOthers ==
    CreT("t1", <<Def("a", Ty("INT", 0)), Def("b", Ty("VARCHAR", 255)), Def("Cc", Ty("BIGINT", 0)), Def("x", Ty("BOOLEAN", 0))>>),
    CreD("db1"), UseD("db1"), ShowD}
 MC_Cover       == CoverSelects \cup CoverOthers
+\* statements with characters of 2, 3 and 4 bytes: every byte-wise truncation of their text is an input of C09
+MC_CoverUnicode ==
+  {Ins("t<U+00E9>", <<"<U+6771>1">>, <<<<StrL("caf<U+00E9>"), IntL(7), StrL("<U+6771><U+4EAC> a<U+1F600>b")>>>>),
+   Sel(<<Item(StrL("<U+1F600>"), "<U+6771>1")>>, <<Tbl("t<U+00E9>", "")>>, <<>>,
+       <<Cmp("=", Col("t<U+00E9>", "<U+6771>1"), StrL("<U+00E9><U+6771><U+1F600>"))>>, <<>>, <<>>, <<>>, <<>>),
+   Upd("q <U+1F600>", <<Asg("<U+6771>1", StrL("<U+00E9>"))>>, <<>>)}
 \* a smaller cover for two junk tokens
 MC_CoverSmall  == {s \in MC_Cover : Len(Toks(s, "LO")) <= 16}
 
@@ -110,6 +121,8 @@ MC_SeqVocab   == CoreVocab \cup QuotedLookalikes
                  \cup {Raw(x) : x \in {"99999999999999999999", "0x10", "1_0", "017", "1.5", "1e9", "'", "'abc", "`abc`", "`",
                                        "--", "/*", "//", "-"}}
                  \cup {Lex(c) : c \in {"dquote", "dq_unterminated", "nul", "bad_utf8", "nonascii_ident", "long_ident"}}
+\* the statements whose text is also padded to lengths around the scanner's buffer size (C09)
+MC_CoverLong  == MC_CoverSmall \cup MC_CoverUnicode
 MC_None       == {}
 MC_AllSlices  == SliceNames \ {"given"}
 MC_Given      == {"given"}
